@@ -86,6 +86,20 @@ fn rfc8285_one_byte(data: &[u8], id: u8) -> Option<Vec<u8>> {
     None
 }
 
+/// every element of a one-byte-header block lies inside the block (RFC 8285 §4.2)
+fn bede_well_formed(data: &[u8]) -> bool {
+    let mut i = 0;
+    while i < data.len() {
+        let b = data[i];
+        if b == 0 { i += 1; continue; }
+        if b >> 4 == 15 { return true; }
+        let len = (b & 15) as usize + 1;
+        if i + 1 + len > data.len() { return false; }
+        i += 1 + len;
+    }
+    true
+}
+
 /// two-byte-header (0x1000) element scan written from RFC 8285 §4.3
 fn rfc8285_two_byte(data: &[u8], id: u8) -> Option<Vec<u8>> {
     let mut i = 0;
@@ -102,7 +116,8 @@ fn rfc8285_two_byte(data: &[u8], id: u8) -> Option<Vec<u8>> {
 fn ext_value(ext: &Option<(u16, Vec<u8>)>, id: u8) -> Option<String> {
     if id == 0 { return None; }
     let (p, d) = ext.as_ref()?;
-    let raw = match *p { 0xBEDE => rfc8285_one_byte(d, id), 0x1000 => rfc8285_two_byte(d, id), _ => None };
+    // two-byte headers: 0x100 in the upper 12 bits, the low 4 'appbits' are to be ignored (RFC 8285 §4.3)
+    let raw = match *p { 0xBEDE => rfc8285_one_byte(d, id), x if x & 0xFFF0 == 0x1000 => rfc8285_two_byte(d, id), _ => None };
     raw.and_then(|b| String::from_utf8(b).ok())
 }
 
@@ -171,6 +186,15 @@ pub async fn dexec(ops: &[DOp]) -> DOut {
                 // ghost: listeners 2 and 3 stand for simulcast-layer listeners of receivers 0 and 1 (separate channels
                 // that never register a MID themselves, as in peer_connection.rs); their media section is their parent's
                 let section_of = |l: usize| -> Option<String> { section[l].clone().or_else(|| if l >= 2 { section[l - 2].clone() } else { None }) };
+                // "… else by SSRC": an unregistered MID does not stop the chain — a packet whose SSRC is bound to an open
+                // receiver that registered for NO section must still reach it (no over-dropping)
+                if got.is_empty() && rid_named.is_none() && live_mid_owner.is_none() {
+                    if let (Some(m), Some((_, a))) = (&mid_val, pre.by_ssrc.iter().find(|e| e.0 == *ssrc)) {
+                        if !mid_owner.contains_key(m) && *a < NL && rxs[*a].is_some() && section[*a].is_none() && rid_val.as_ref().map(|r| !rid_owner.contains_key(r)).unwrap_or(true) {
+                            fails.push(("demux:unregistered-mid-blocks-ssrc-bound-receiver".into(), format!("step {i}: MID {m:?} is registered by nobody, SSRC {ssrc} is bound to open listener {a} (no section), packet dropped")));
+                        }
+                    }
+                }
                 for (l, p) in &got {
                     let by_ext = rid_named == Some(*l) || live_mid_owner == Some(*l);
                     let known_ssrc = pre.by_ssrc.iter().any(|e| e.0 == *ssrc);
@@ -187,9 +211,25 @@ pub async fn dexec(ops: &[DOp]) -> DOut {
                     // SSRC is unknown and no extension names the receiver → the property drops the packet; the code's
                     // provisional fallback hands it to the single provisional listener (known finding), anything else is new
                     let claimants = (0..NL).filter(|o| rxs[*o].is_some() && pts_of[*o].contains(pt)).count();
-                    if !by_ext && !known_ssrc && claimants >= 2 {
-                        let sig = if prov_of[*l] { "demux:ambiguous-pt-falls-to-provisional" } else { "demux:ambiguous-payload-type-delivered" };
-                        fails.push((sig.into(), format!("step {i}: pt {pt} registered by {claimants} open listeners, handed to {l}")));
+                    // the packet was identified by nothing the property's chain knows (no RID/MID owner, unknown SSRC, and
+                    // the payload type does not single out the receiver): it can only have come through the code's fifth
+                    // stage, the provisional fallback
+                    let via_provisional = !by_ext && !known_ssrc && !(claimants == 1 && pts_of[*l].contains(pt));
+                    if via_provisional {
+                        let open_provisional = (0..NL).filter(|o| rxs[*o].is_some() && prov_of[*o]).count();
+                        if !prov_of[*l] {
+                            let sig = if claimants >= 2 { "demux:ambiguous-payload-type-delivered" } else { "demux:unidentified-packet-delivered" };
+                            fails.push((sig.into(), format!("step {i}: pt {pt} registered by {claimants} open listeners, handed to {l}, which is not a provisional listener")));
+                        } else if open_provisional > 1 {
+                            // the fallback is for THE single provisional listener
+                            fails.push(("demux:ambiguous-provisional-delivered".into(), format!("step {i}: {open_provisional} open provisional listeners, packet handed to {l}")));
+                        } else if claimants >= 2 {
+                            // known deviation: ambiguous payload type → the single provisional listener (the property drops it)
+                            fails.push(("demux:ambiguous-pt-falls-to-provisional:single-provisional".into(), format!("step {i}: pt {pt} registered by {claimants} open listeners, handed to {l}")));
+                        } else {
+                            // known deviation: a packet nothing identifies → the single provisional listener (the property drops it)
+                            fails.push(("demux:unidentified-packet-to-provisional:single-provisional".into(), format!("step {i}: pt {pt}, ssrc {ssrc} handed to {l}")));
+                        }
                     }
                     delivered += 1;
                     if p.header.ssrc != *ssrc || p.header.payload_type != *pt { fails.push(("demux:delivered-packet-altered".into(), format!("step {i}"))); }
@@ -200,8 +240,12 @@ pub async fn dexec(ops: &[DOp]) -> DOut {
                         // the packet names its media section; the receiver's section (if it has one) must be that one
                         // (a MID whose registering listener has gone away counts as unregistered)
                         let live_owner = mid_owner.get(m).copied().filter(|o| rxs[*o].is_some());
-                        if let Some(sec) = section_of(*l) { if &sec != m && live_owner != Some(*l) {
-                            let rid_hit = rid_val.as_ref().and_then(|r| rid_owner.get(r)) == Some(l);
+                        let rid_hit = rid_val.as_ref().and_then(|r| rid_owner.get(r)) == Some(l);
+                        // RID routing: the receiver's section is its own or, for a layer listener, its parent's (ghost).
+                        // Later stages after an UNREGISTERED MID: the receiver must not have registered for another
+                        // section itself (what the transport can know: the MID on its own route).
+                        let sec = if rid_hit { section_of(*l) } else { section[*l].clone() };
+                        if let Some(sec) = sec { if &sec != m && live_owner != Some(*l) {
                             let sig = if rid_hit { "cross:rid-overrides-mid".to_string() }
                                 else if live_owner.is_none() {
                                     // which later stage caught the packet, and whether it taught the registry the SSRC
@@ -274,10 +318,11 @@ fn alpha_pkt(k: usize) -> DOp {
         8 => p(S[2], 99, Some(bede(&[(4, b"a")]))),            // known RID
         9 => p(S[0], 98, Some(bede(&[(3, b"1"), (4, b"a")]))), // MID 1 and RID a, SSRC of listener 0
         10 => p(S[1], 97, Some(bede(&[(3, &[0xff, 0xfe])]))),  // non-UTF-8 MID
-        _ => p(S[2], 97, Some(bede(&[(4, b"zz")]))),           // unknown RID
+        11 => p(S[2], 97, Some(bede(&[(4, b"zz")]))),          // unknown RID
+        _ => p(S[1], 98, Some((0x1003, vec![3, 1, b'0', 0]))),  // MID "0" in a two-byte header with appbits 3
     }
 }
-pub const NPKT: usize = 12;
+pub const NPKT: usize = 13;
 
 fn rand_dop(rng: &mut Rng) -> DOp {
     let l = rng.below(NL as u64) as usize;
@@ -314,9 +359,9 @@ fn rand_dop(rng: &mut Rng) -> DOp {
                     for _ in 0..rng.range(1, 3) { let v = name(rng).into_bytes(); d.push(*rng.pick(&[3u8, 4, 20])); d.push(v.len() as u8); d.extend(v); }
                     if rng.chance(1, 4) { d.push(3); d.push(200); } // length running past the end
                     while d.len() % 4 != 0 { d.push(0); }
-                    Some((0x1000, d))
+                    Some((*rng.pick(&[0x1000u16, 0x1000, 0x1005, 0x100F]), d))
                 }
-                8 => { let n = 4 * rng.range(0, 5) as usize; Some((*rng.pick(&[0xBEDEu16, 0x1000, 0x1234]), rng.bytes(n))) } // arbitrary bytes
+                8 => { let n = 4 * rng.range(0, 5) as usize; Some((*rng.pick(&[0xBEDEu16, 0x1000, 0x1007, 0x1234, 0x1010]), rng.bytes(n))) } // arbitrary bytes
                 _ => { // truncated / reserved-id element
                     let mut d = vec![(3 << 4) | 7, b'0']; if rng.chance(1, 2) { d = vec![0xf0, 0x30, 0x30, 0x30]; }
                     while d.len() % 4 != 0 { d.push(0); }
@@ -339,7 +384,9 @@ pub struct BCfg { strip: bool, init_seq: Option<u16>, init_off: Option<u32>, ini
     /// pushes of earlier audio packets are refused after the rewrite (sequence numbers consumed, nothing sent)
     hold: usize,
     /// Some: the bridge is installed through the legacy `bridge_rewrite_to(dst, params)` API
-    legacy: Option<Legacy> }
+    legacy: Option<Legacy>,
+    /// > 0: the same bridge is installed AGAIN before packet `reinstall` (a new `RewriteBridge`: every stream starts over)
+    reinstall: usize }
 #[derive(Clone, Debug)]
 pub struct Legacy { off: u32, fixed: Option<u32>, pt: Option<u8>, dtmf: Option<(u8, u8)> }
 #[derive(Clone, Debug)]
@@ -371,15 +418,18 @@ pub async fn bexec(net: &Net, c: &BCfg, pkts: &[BPkt]) -> BOut {
     let src = RtpTransport::new(net.conn(0), false);
     let dst_a = Arc::new(RtpTransport::new(net.conn(1), c.hold > 0));
     let dst_v = Arc::new(RtpTransport::new(net.conn(2), false));
-    let rules: Vec<RtpRewriteRule> = c.rules.iter().map(|r| RtpRewriteRule { match_payload_type: r.mp, fixed_out_ssrc: r.fixed, ssrc_offset: r.off,
-        out_payload_type: r.op, sdes_mid_extension_id: r.mid_ext, sdes_mid: r.mid.clone() }).collect();
-    let opts = RtpRewriteBridgeOptions { strip_extensions: c.strip, initial_sequence_number: c.init_seq, initial_timestamp_offset: c.init_off, initial_output_timestamp: c.init_out };
-    if let Some(l) = &c.legacy {
-        src.bridge_rewrite_to(dst_a.clone(), rustrtc::RtpRewriteBridgeParams { ssrc_offset: l.off, fixed_out_ssrc: l.fixed, payload_type: l.pt, dtmf_payload_type: l.dtmf,
-            initial_sequence_number: c.init_seq, initial_timestamp_offset: c.init_off, strip_extensions: c.strip });
-    } else {
-        src.bridge_rewrite_rules_to_with_video(dst_a.clone(), if c.has_video { Some(dst_v.clone()) } else { None }, c.vpts.iter().copied().collect::<HashSet<u8>>(), opts, rules);
-    }
+    let install = || {
+        let rules: Vec<RtpRewriteRule> = c.rules.iter().map(|r| RtpRewriteRule { match_payload_type: r.mp, fixed_out_ssrc: r.fixed, ssrc_offset: r.off,
+            out_payload_type: r.op, sdes_mid_extension_id: r.mid_ext, sdes_mid: r.mid.clone() }).collect();
+        let opts = RtpRewriteBridgeOptions { strip_extensions: c.strip, initial_sequence_number: c.init_seq, initial_timestamp_offset: c.init_off, initial_output_timestamp: c.init_out };
+        if let Some(l) = &c.legacy {
+            src.bridge_rewrite_to(dst_a.clone(), rustrtc::RtpRewriteBridgeParams { ssrc_offset: l.off, fixed_out_ssrc: l.fixed, payload_type: l.pt, dtmf_payload_type: l.dtmf,
+                initial_sequence_number: c.init_seq, initial_timestamp_offset: c.init_off, strip_extensions: c.strip });
+        } else {
+            src.bridge_rewrite_rules_to_with_video(dst_a.clone(), if c.has_video { Some(dst_v.clone()) } else { None }, c.vpts.iter().copied().collect::<HashSet<u8>>(), opts, rules);
+        }
+    };
+    install();
     let to_video = |pt: u8| c.legacy.is_none() && c.has_video && c.vpts.contains(&pt);
     let addr: SocketAddr = "127.0.0.1:4000".parse().unwrap();
     let mut mb = Vec::new();
@@ -389,6 +439,7 @@ pub async fn bexec(net: &Net, c: &BCfg, pkts: &[BPkt]) -> BOut {
     let mut known: HashSet<u32> = HashSet::new();
     for (i, p) in pkts.iter().enumerate() {
         if c.hold > 0 && i == c.hold { dst_a.start_srtp(super::c14::session(10)); }
+        if c.reinstall > 0 && i == c.reinstall { install(); known.clear(); tokens.push("reset".into()); }
         let mut h = RtpHeader::new(p.pt, p.seq, p.ts, p.ssrc);
         h.marker = p.marker;
         if let Some((pr, d)) = &p.ext { h.extension = Some(RtpHeaderExtension::new(*pr, d.clone())); }
@@ -439,6 +490,7 @@ pub async fn bexec(net: &Net, c: &BCfg, pkts: &[BPkt]) -> BOut {
     let mut tracks: BTreeMap<u32, Track> = BTreeMap::new();
     let (mut rebased, mut wrapped) = (false, false);
     for (i, p) in pkts.iter().enumerate() {
+        if c.reinstall > 0 && i == c.reinstall { tracks.clear(); consumed.clear(); anchors.clear(); stale_new.clear(); } // a new bridge: every stream's life starts over
         let nth = { let e = consumed.entry(p.ssrc).or_insert(0); *e += 1; *e - 1 };
         let refused = c.hold > 0 && i < c.hold && !to_video(p.pt);
         match got.get(&(i as u32)) {
@@ -500,6 +552,20 @@ pub async fn bexec(net: &Net, c: &BCfg, pkts: &[BPkt]) -> BOut {
                     Some(l) => match l.dtmf { Some((a, b)) if a == p.pt => b, _ => l.pt.unwrap_or(p.pt) },
                     None => rule.and_then(|r| r.op).unwrap_or(p.pt) };
                 if q.header.payload_type != want_pt { fails.push(("bridge:output-pt-not-per-rule".into(), format!("packet {i}: {} want {want_pt}", q.header.payload_type))); }
+                // MID stamping: when the MATCHED rule carries a stampable SDES-MID and the packet arrives without extension
+                // block (or with a well-formed one-byte block), the output names that rule's MID and no other rule's
+                if c.legacy.is_none() && !c.strip {
+                    if let Some(r) = rule {
+                        if let (Some(id), Some(mid)) = (r.mid_ext, r.mid.as_ref()) {
+                            let stampable = (1..=14).contains(&id) && (1..=16).contains(&mid.len());
+                            let input_ok = match &p.ext { None => true, Some((0xBEDE, d)) => bede_well_formed(d), _ => false };
+                            if stampable && input_ok {
+                                let got_mid = q.header.extension.as_ref().filter(|e| e.profile == 0xBEDE).and_then(|e| rfc8285_one_byte(&e.data, id));
+                                if got_mid.as_deref() != Some(mid.as_bytes()) { fails.push(("bridge:mid-not-stamped-per-rule".into(), format!("packet {i}: matched rule's MID {mid:?} (ext id {id}), output block carries {:?}", got_mid.map(|b| String::from_utf8_lossy(&b).to_string())))); }
+                            }
+                        }
+                    }
+                }
             }
             Some(v) => { outs.push(format!("dup{}", v.len())); fails.push(("bridge:packet-forwarded-more-than-once".into(), format!("packet {i}"))); }
             None => { outs.push("lost".into()); unstable = true; }
@@ -601,7 +667,7 @@ pub fn run(args: &Args) {
         for mask in 0..(1usize << 5) {
             if (mask as u32).count_ones() > 3 { continue; }
             let rules: Vec<BRule> = (0..5).filter(|k| mask & (1 << k) != 0).map(rule_pool).collect();
-            let cfg = BCfg { strip: false, init_seq: Some(65534), init_off: Some(0xFFFF_FF00), init_out: None, has_video: true, vpts: vec![97], rules, hold: 0, legacy: None };
+            let cfg = BCfg { strip: false, init_seq: Some(65534), init_off: Some(0xFFFF_FF00), init_out: None, has_video: true, vpts: vec![97], rules, hold: 0, legacy: None, reinstall: 0 };
             for len in 1..=blen {
                 for idx in 0..NBSYM.pow(len as u32) {
                     let (mut cur, mut seqs) = ([1000u32, 0xFFFF_FE00], [10u16, 65530]);
@@ -628,7 +694,8 @@ pub fn run(args: &Args) {
                 init_out: if rng.chance(1, 4) { Some(rng.next() as u32) } else { None },
                 has_video: rng.chance(1, 2), vpts: if rng.chance(1, 2) { vec![97] } else { vec![] }, rules,
                 hold: if rng.chance(1, 5) { rng.range(1, 6) as usize } else { 0 },
-                legacy: if rng.chance(1, 5) { Some(Legacy { off: *rng.pick(&[0u32, 1000, 0xFFFF_FFFF]), fixed: if rng.chance(1, 2) { Some(rng.next() as u32) } else { None }, pt: if rng.chance(1, 2) { Some(8) } else { None }, dtmf: if rng.chance(2, 3) { Some((101, 96)) } else { None } }) } else { None } };
+                legacy: if rng.chance(1, 5) { Some(Legacy { off: *rng.pick(&[0u32, 1000, 0xFFFF_FFFF]), fixed: if rng.chance(1, 2) { Some(rng.next() as u32) } else { None }, pt: if rng.chance(1, 2) { Some(8) } else { None }, dtmf: if rng.chance(2, 3) { Some((101, 96)) } else { None } }) } else { None },
+                reinstall: if rng.chance(1, 6) { rng.range(1, 8) as usize } else { 0 } };
             let mut cfg = cfg;
             if cfg.legacy.is_some() { cfg.init_out = None; cfg.has_video = false; } // `bridge_rewrite_to` has neither a pinned first timestamp nor a video target
             let n = if rng.chance(1, 20) { rng.range(100, 200) } else { rng.range(1, 20) } as usize;
@@ -704,7 +771,7 @@ fn parse_dop(t: &str) -> DOp {
 }
 fn parse_bridge(toks: &[&str]) -> (BCfg, Vec<BPkt>) {
     let on = |s: &str| if s == "-" { None } else { Some(s.parse::<u64>().unwrap()) };
-    let mut c = BCfg { strip: false, init_seq: None, init_off: None, init_out: None, has_video: false, vpts: vec![], rules: vec![], hold: 0, legacy: None };
+    let mut c = BCfg { strip: false, init_seq: None, init_off: None, init_out: None, has_video: false, vpts: vec![], rules: vec![], hold: 0, legacy: None, reinstall: 0 };
     let mut pkts = vec![];
     for t in toks {
         let f: Vec<&str> = t.split(',').collect();
@@ -716,6 +783,7 @@ fn parse_bridge(toks: &[&str]) -> (BCfg, Vec<BPkt>) {
             "params" => { c.legacy = Some(Legacy { off: f[1].parse().unwrap(), fixed: on(f[2]).map(|x| x as u32), pt: on(f[3]).map(|x| x as u8),
                        dtmf: if f[4] == "-" { None } else { let d: Vec<u8> = f[4].split('.').map(|x| x.parse().unwrap()).collect(); Some((d[0], d[1])) } });
                        c.init_seq = on(f[5]).map(|x| x as u16); c.init_off = on(f[6]).map(|x| x as u32); c.strip = f[7] == "1"; }
+            "reset" => { c.reinstall = pkts.len(); }
             "k" => { if f.len() > 10 && f[10] == "0" { c.hold = pkts.len() + 1; } // a refused push: the audio target had no keys yet
                      pkts.push(BPkt { ssrc: f[1].parse().unwrap(), pt: f[2].parse().unwrap(), seq: f[3].parse().unwrap(), ts: f[4].parse().unwrap(), marker: f[5] == "1",
                        ext: if f[6] == "-" { None } else { Some((f[6].parse().unwrap(), crate::unhex(f[7]))) } }); }
